@@ -132,6 +132,14 @@ def r_schema(ctx):
         ok = ok and S(vc) == 'from(inner(self)@Constant.0)' and S(vp) == 'from(get_argument(scope, inner(self)@Parameter.0))'
         ok = ok and is_call(vc) and is_call(vp) and vc[1] == vp[1]
     ctx.ob(rid, 'same-schema', ok, 'Constant and Parameter arms emit the same term over StructuralValue::from(value) resp. StructuralValue::from(argument)', None)
+    r_argument_scopes(ctx)
+
+
+def r_argument_scopes(ctx):
+    """Shared with C03 (discharge of the expect in get_argument), C08 and C09 (fold / loop bodies are compiled in child scopes)."""
+    rid = 'R12.3a'
+    ctx.rule(rid, 'the arguments passed to Program::compile reach every compile scope: Scope::new stores them, Scope::child copies them, get_argument reads them (a `param::X` inside a called function, fold body or loop body resolves like in main)')
+    fx = ctx.facts()
     ga = ctx.anchor(fx, 'compile::Scope::get_argument')
     rets = [S(r) for k, p, r in explore(ctx, ga) if k == 'RET']
     ctx.ob(rid, 'get_argument', len(rets) == 1 and rets[0].startswith('expect(get(self.arguments, name)'), 'get_argument(name) = self.arguments.get(name)', ga.where(), str(rets))
